@@ -74,6 +74,27 @@ def run(ctx):
                    "'%s' is dereferenced after finish_released(%s->id): the deposit-box slot that holds the node can be "
                    "re-emplaced by another waiter at once, so the value read (e.g. ->next) is garbage and waiters "
                    "behind it are never resumed" % (v.get("n"), v.get("n")), site="%s@after-release" % inst)
+        # R1e a walk over the waiter list must not clear the link it is about to advance through
+        for inc in ig.ev_nodes(lambda n: n.id in live and n.ev["e"] == "asg" and n.ev.get("op") == "=" and n.frame.id == 0):
+            lhs = strip_cast(inc.ev["lhs"])
+            rhs = strip_cast(inc.ev.get("rhs"))
+            if not (isinstance(lhs, dict) and lhs.get("k") == "l" and isinstance(rhs, dict) and rhs.get("k") == "f" and
+                    rhs.get("n") == "next" and strip_cast(rhs.get("b", {})).get("k") == "l" and
+                    strip_cast(rhs["b"]).get("id") == lhs["id"]):
+                continue
+            v = dict(lhs, fr=0)
+            redefs = [n for n, r_, h_ in ig.local_defs(ig.frames[0], lhs["id"]) if n is not inc]
+            bad = None
+            for w in ig.ev_nodes(lambda n: n.id in live and n.ev["e"] == "asg" and n.frame.id == 0 and n is not inc):
+                wl = strip_cast(w.ev["lhs"])
+                if isinstance(wl, dict) and wl.get("k") == "f" and wl.get("n") == "next" and \
+                        strip_cast(wl.get("b", {})).get("k") == "l" and strip_cast(wl["b"]).get("id") == lhs["id"]:
+                    if ig.path_exists(w, inc, avoiding=redefs):
+                        bad = w
+            ctx.ob("C13.R1e", "%s@%s" % (inst, inc.line), bad is None, (bad.where if bad else inc.where),
+                   "the loop advances through %s->next after the body overwrote %s->next: the walk over the waiter list "
+                   "stops at the first node (wake_one returns 0 with wakeable waiters left when the first one is being "
+                   "cancelled)" % (lhs.get("n"), lhs.get("n")), site="%s@list-walk" % inst)
         if not resumes:
             continue
         n_take += 1
@@ -214,6 +235,24 @@ def run(ctx):
             ctx.ob("C13.R4b", L.short(fn), ok, fn.loc,
                    "a waiter must be linked (and true returned) only when the futex value equals the expected value, "
                    "tested under the same lock as the link")
+        # R4c every node a waker detaches from the list is marked detached (prev = nullptr) before the waker
+        # tries to take it - whoever owns the node: a canceller that already won the take will call
+        # remove_awaiter later and relies on prev == nullptr to know the node is no longer linked
+        takes = list(L.call_nodes(ig, callee_re=TAKE_RE, live=live))
+        if takes:
+            clears = [w for w in writes if strip_cast(w.ev.get("lhs", {})).get("n") == "prev" and
+                      strip_cast(strip_cast(w.ev["lhs"]).get("b", {})).get("k") == "l" and const_val(w.ev.get("rhs")) == "null"]
+            for t in takes:
+                heads = [ig.frames[0].block_node[bid] for bid, b in fn.blocks.items()
+                         if b.get("term") in ("ForStmt", "WhileStmt") and
+                         ig.path_exists(ig.frames[0].block_node[bid], t, strict=False) and
+                         ig.path_exists(t, ig.frames[0].block_node[bid])]
+                bad = any(ig.path_exists(h, t, avoiding=clears, strict=False) for h in heads)
+                ctx.ob("C13.R4c", "%s@%s" % (L.short(fn), t.line), bool(heads) and bool(clears) and not bad, t.where,
+                       "a node the waker removes from the waiter list is not marked detached (node->prev = nullptr) "
+                       "before the ownership test: when the take fails the owning canceller later unlinks it from a list "
+                       "it is no longer part of and re-attaches released nodes to the futex head",
+                       site="%s@detach-mark" % L.short(fn))
     ctx.floor("C13.R4", n4, 4, "Futex functions that edit the waiter list")
 
     # ------------------------------------------------------------------ R5 exactly-one continuation
